@@ -130,18 +130,33 @@ def structural(ctx, sig, fparams, npos, kws, p, w, rp, label):
 
 
 FORWARD_SRC = '''
+from sigtools import modifiers
 def callee(%(callee)s): pass
+%(dress)s
 def outer(func, %(outer)s):
     return func(%(args)s)
 '''
 
 
 @core.guarded(None)
-def check_forwarding_partial(ctx, oparams, cparams, by_keyword):
+def check_forwarding_partial(ctx, oparams, cparams, by_keyword, dress=None):
     """partial(outer, callee) resolves the callee (bound positional);
-    partial(outer, func=callee) does not."""
+    partial(outer, func=callee) does not.  dress: the forwarding function is wrapped by a
+    sigtools.modifiers decorator (a _PokTranslator: discovery then goes through its hint)."""
     import sigtools
     from sigtools import signatures
+    dress_line = ''
+    if dress == 'posoargs-func':
+        dress_line = "@modifiers.posoargs('func')"
+        if by_keyword:
+            ctx.count('C19.skipped_posonly_keyword')
+            return
+    elif dress == 'kwoargs':
+        pk = [q[0] for q in oparams if q[1] == PK]
+        if not pk:
+            dress = None
+        else:
+            dress_line = '@modifiers.kwoargs(%r)' % pk[-1]
     if by_keyword and sigs.has_kind(oparams, PO):
         # `func` would be positional-only itself: binding it by keyword is the
         # excluded positional-only-name-next-to-**kwargs case
@@ -150,13 +165,15 @@ def check_forwarding_partial(ctx, oparams, cparams, by_keyword):
     ova = sigs.star_name(oparams, VA)
     ovk = sigs.star_name(oparams, VK)
     args = ', '.join((['*' + ova] if ova else []) + (['**' + ovk] if ovk else []))
-    src = FORWARD_SRC % dict(callee=sigs.render(cparams), outer=sigs.render(oparams), args=args)
+    src = FORWARD_SRC % dict(callee=sigs.render(cparams), outer=sigs.render(oparams), args=args, dress=dress_line)
     g = sigs.compile_module(src, tag='vpart')
     outer, callee = g['outer'], g['callee']
+    if dress:
+        ctx.count('C19.forwarding_partials_through_modifier')
     p = functools.partial(outer, func=callee) if by_keyword else functools.partial(outer, callee)
     rp = dict(workload='partial-forwarding', oparams=sigs.to_json(oparams), cparams=sigs.to_json(cparams),
-              by_keyword=by_keyword)
-    w = {'outer': 'def outer(func, %s): return func(%s)' % (sigs.render(oparams), args),
+              by_keyword=by_keyword, dress=dress)
+    w = {'outer': '%sdef outer(func, %s): return func(%s)' % (dress_line + ' ' if dress_line else '', sigs.render(oparams), args),
          'callee': show_params(cparams), 'partial': 'partial(outer, func=callee)' if by_keyword else 'partial(outer, callee)'}
     ctx.evaluated()
     ctx.count('C19.forwarding_partials')
@@ -176,6 +193,11 @@ def check_forwarding_partial(ctx, oparams, cparams, by_keyword):
         return
     # soundness by execution; exactness against the declared equivalent
     ob = sigs.shape_key(oparams)
+    full_outer = (('func', PK, None, None),) + tuple(ob)
+    if dress:
+        # what the modifier advertises for outer (func first; the selection moved / made positional-only)
+        full_outer = tuple(bparams(signatures.signature(outer)))
+        ob = full_outer[1:]
     cb = sigs.shape_key(cparams)
     res = bparams(sig)
     sp = oracle.space_for([ob, cb, res])
@@ -184,7 +206,6 @@ def check_forwarding_partial(ctx, oparams, cparams, by_keyword):
     except Exception:
         ctx.count('C19.real_call_failed_otherwise')
         return
-    full_outer = (('func', PK, None, None),) + tuple(ob)
     nc = sp.noncolliding(res, [full_outer, cb])
     acc = sp.acc(res)
     ctx.nontrivial(('fwd-pos', ob, cb))
@@ -259,7 +280,8 @@ def run(ctx):
     for _ in range(nfw):
         if ctx.out_of_time('forwarding partials'):
             break
-        check_forwarding_partial(ctx, rnd.choice(outers), rnd.choice(callees), by_keyword=rnd.random() < 0.25)
+        check_forwarding_partial(ctx, rnd.choice(outers), rnd.choice(callees), by_keyword=rnd.random() < 0.25,
+                                 dress=rnd.choice((None, None, 'posoargs-func', 'kwoargs')))
 
 
 def replay(ctx, rec):
@@ -270,4 +292,5 @@ def replay(ctx, rec):
             nested = (nested[0], tuple(nested[1]))
         check_partial(ctx, sigs.from_json(rec['fparams']), layers[0][0], tuple(layers[0][1]), nested=nested)
     else:
-        check_forwarding_partial(ctx, sigs.from_json(rec['oparams']), sigs.from_json(rec['cparams']), rec['by_keyword'])
+        check_forwarding_partial(ctx, sigs.from_json(rec['oparams']), sigs.from_json(rec['cparams']), rec['by_keyword'],
+                                 dress=rec.get('dress'))
